@@ -325,11 +325,12 @@ def op_tree(ctx, rng):
 OPS = [op_add, op_sum, op_mul, op_join, op_div, op_mismatch, op_eq, op_silence, op_construct, op_frozen, op_tree, op_tree]
 
 
-def run_shard(ctx):
+def run_shard(ctx, upto=None):
     conf = TIERS[ctx.tier]
     rng = ctx.rng("ops")
-    for i in range(conf["random"]):
+    for i in range(conf["random"] if upto is None else upto + 1):
         op = OPS[i % len(OPS)]
+        ctx.replay_info = {"shard": ctx.shard, "nshards": ctx.nshards, "seed": ctx.seed, "i": i}
         try:
             op(ctx, rng)
         except Exception as exc:
@@ -339,8 +340,13 @@ def run_shard(ctx):
 
 
 def replay(ctx, case):
-    ctx.note("C17 witnesses are self-describing; re-running the seeded workload of shard 0")
-    run_shard(ctx)
+    import sys
+
+    from ..ctx import replay_by_index
+
+    if not replay_by_index(ctx, sys.modules[__name__], case):
+        ctx.note("witness carries no replay index; re-running the seeded workload of shard 0")
+        run_shard(ctx)
 
 
 def inconclusive(merged, tier):
